@@ -880,16 +880,24 @@ def _run(ctx):
         "for bit but Python's == is false on it, so 'equal structure' for descriptors is equality of the canonical token form "
         "(class, key bytes and storage form, code points, bit patterns), which is stronger than Python's == elsewhere "
         "(ValueElement.__eq__ ignores the unit of a UnitFloat)",
-        "descriptors: CPython's recursion limit is not modelled (the model reader never runs out of fuel; nesting depth <= 150 is exercised)",
+        "descriptors: CPython's recursion limit is not modelled: the model reader recurses on fuel and provably never runs out "
+        "(dec_never_out_of_fuel), Python raises RecursionError for a descriptor nested several hundred levels deep; nesting depth "
+        "<= 150 is exercised",
         "descriptors: the payload of RawData/Alias/Path is opaque bytes (an EngineData object placed there by TypeToolObjectSetting "
         "is what it writes; its text is C18's)",
     ]
     ctx.notes += [
         "Descriptors (psd/descriptor.py) are modelled and proved (Props/C01Descriptor.lean): descriptor_roundtrip, "
-        "descriptor_item_roundtrip, descriptor_rewrite_identical, written_is_length, descriptor_enc_rejects, the block wrappers, "
+        "descriptor_item_roundtrip, descriptor_rewrite_identical, written_is_length, descriptor_enc_rejects, dec_never_out_of_fuel, "
+        "dec_cursor_bounds, the block wrappers (round trip, rewrite, written count) and their composition with the skeleton's tagged "
+        "block (tagged_block_descriptor(2)_payload_roundtrip: TaggedBlock.read hands the length block to kls.frombytes), "
         "ties to TYPES/OSType/Unit/Enum/validators/format literals, a decide-checked sample using all 25 classes. Inside the "
         "file-skeleton model (Model/Psd.lean) a tagged block that holds a descriptor is still an opaque payload: the descriptor "
-        "theorems are about the value classes and block wrappers on their own streams, not yet composed into psd_roundtrip.",
+        "theorems are about the value classes and block wrappers on their own streams; the whole-file theorem psd_roundtrip still "
+        "treats the payload as bytes (what the payload object writes).",
+        "Stated in DESIGN section 3, not proved for descriptors: the `sound` law (what dec returns can be written) and the `framed` "
+        "law (C03's walker); the lenient reading of malformed descriptors is correspondence-only (exception classes and accepted "
+        "structures on mutated encodings).",
         "Descriptor WF clauses beyond validators/widths: Key.WF (C20; a non-term key of length 0 is written as length 0 and no "
         "bytes: write succeeds, read differs/raises - format-excluded, witness zero_length_key_not_roundtrip, replayed on the real "
         "code by this run), NoPair (C19's unicode law; witness surrogate_pair_string_not_roundtrip), one occurrence per dict key "
